@@ -117,13 +117,19 @@ def canon(spec):
         return ['task', spec[1], [canon(a) for a in spec[2]], sorted([[kw, canon(v)] for kw, v in spec[3]], key=json.dumps)]
     if k == 'objarray':
         return ['objarray', spec[1], [canon(x) for x in spec[2]]]
-    if k in ('array', 'rawarray'):
+    if k in ('array', 'rawarray', 'perm'):
         import numpy as np
         from .hashworker import np_descr
+        axes = None
+        if k == 'perm':
+            axes, spec = spec[2], spec[1]
+            k = spec[0]
         if k == 'array':
             a = np.array(spec[3], dtype=spec[1]).reshape(spec[2])
         else:
             a = np.frombuffer(bytes.fromhex(spec[3]), dtype=np.dtype(np_descr(spec[1]))).reshape(spec[2])
+        if axes is not None:
+            a = a.transpose(axes)           # an array is its VALUES (logical C order), whatever its memory image
         return ['ndarray', _dtype_key(a.dtype), list(a.shape), a.tobytes().hex()]
     if k == 'sub':
         # an instance of a subclass is another value than the base-class instance with the same content; an OrderedDict is
@@ -178,6 +184,9 @@ DIRECTED = [
     ('nesting', T('f', [['list', [['list', [L('1')]]]]]), T('f', [['list', [L('1')]]])),
     ('empty list vs none', T('f', [['list', []]]), T('f', [])),
     ('reshaped array', T('f', [ARR('int32', [2, 3], [1, 2, 3, 4, 5, 6])]), T('f', [ARR('int32', [3, 2], [1, 2, 3, 4, 5, 6])])),
+    ('transposed square array', T('f', [['perm', ARR('int32', [2, 2], [1, 2, 3, 4]), [0, 1]]]), T('f', [['perm', ARR('int32', [2, 2], [1, 2, 3, 4]), [1, 0]]])),
+    ('C- vs Fortran-ordered array over the same bytes', T('f', [ARR('int32', [2, 3], [1, 2, 3, 4, 5, 6])]),
+     T('f', [['perm', ARR('int32', [3, 2], [1, 2, 3, 4, 5, 6]), [1, 0]]])),
     ('flattened array', T('f', [ARR('int32', [2, 3], [1, 2, 3, 4, 5, 6])]), T('f', [ARR('int32', [6], [1, 2, 3, 4, 5, 6])])),
     ('re-typed array', T('f', [ARR('int8', [4], [1, 0, 0, 0])]), T('f', [ARR('int32', [1], [1])])),
     ('array vs list', T('f', [ARR('int64', [2], [1, 2])]), T('f', [['list', [L('1'), L('2')]]])),
@@ -428,9 +437,49 @@ def subclass_family(ck):
     return out
 
 
+def memory_image_family(ck):
+    """arrays of one dtype and shape whose MEMORY IMAGES coincide while their values differ: for a byte string b, a shape S and every
+    permutation pi of the axes, the view transpose(pi) of the C-contiguous array over b whose transposed shape is S (pi = identity: the
+    plain C-ordered array; S square and pi = (1,0): X.T; pi = reversal: the Fortran-ordered array over b; cubes: all six axis orders);
+    each as a positional, keyword and nested argument"""
+    rng = ck.rng
+    out = []
+    for S in ([2, 2], [3, 3], [2, 3], [2, 2, 2], [2, 3, 2]):
+        n = 1
+        for d in S:
+            n *= d
+        for dt, size in (('<i4', 4), ('<f8', 8), ('|i1', 1), ([['x', '<i2'], ['y', '<i2']], 4)):
+            hx = bytes(rng.randrange(1, 120) for _ in range(n * size)).hex()
+            for axes in itertools.permutations(range(len(S))):
+                base_shape = [0] * len(S)
+                for i, ax in enumerate(axes):
+                    base_shape[ax] = S[i]
+                v = ['perm', ['rawarray', dt, base_shape, hx], list(axes)]
+                out += [T('f', [v]), T('f', [], [('a', v)]), T('f', [['list', [v, L('1')]]]), T('g', [['dict', [[L("'k'"), v]]]])]
+    return out
+
+
+def has_memory_view(spec):
+    """does the spec hold an array whose memory layout is fixed by the spec ('perm') - those are always part of the tie"""
+    if isinstance(spec, list):
+        if spec and spec[0] == 'perm':
+            return True
+        return any(has_memory_view(x) for x in spec)
+    return False
+
+
+def has_matrix(spec):
+    """does the spec hold an array of >= 2 dimensions, each >= 2 (the only ones whose memory order can differ from C order)"""
+    if isinstance(spec, list):
+        if spec and spec[0] in ('array', 'rawarray') and isinstance(spec[2], list) and len(spec[2]) >= 2 and min(spec[2]) >= 2:
+            return True
+        return any(has_matrix(x) for x in spec)
+    return False
+
+
 def families(ck):
     fams = [('arrays', array_family(ck)), ('chains', chain_family(ck)), ('containers', mixed_family(ck)), ('exempt', exempt_family(ck)),
-            ('subclasses', subclass_family(ck))]
+            ('subclasses', subclass_family(ck)), ('memory images', memory_image_family(ck))]
     out = []
     for name, specs in fams:
         ck.count('family:' + name, len(specs))
@@ -529,7 +578,10 @@ def run(ck):
     e2e(ck)
     # ---- tie: stream correspondence on the pool (sampled in quick) + all directed
     idxs = [i for i in range(len(allspecs)) if not res[i].get('error')]
-    tie_idx = idxs if ck.tier == 'thorough' else ([i for i in idxs if i % 7 == 0 or i >= nd])
+    # (every array whose memory order can differ from its logical order is in the tie: the worker realises them in C / Fortran /
+    #  strided / offset layouts, and the 'perm' views keep the memory image the spec gives them)
+    tie_idx = idxs if ck.tier == 'thorough' else ([i for i in idxs if i % 7 == 0 or i >= nd or has_memory_view(allspecs[i]) or has_matrix(allspecs[i])])
+    ck.count('tie:arrays with a free memory order', sum(1 for i in tie_idx if has_memory_view(allspecs[i]) or has_matrix(allspecs[i])))
     cases = [res[i]['case'] for i in tie_idx]
     fails = ck.cases('hash_stream', 'From JugV Require Import Model.Hash.', 'pv * list tok',
                      'fun c => toks_eqb (hash_one_stream false (fst c)) (snd c)', cases, shard=300,
@@ -574,6 +626,9 @@ def e2e_probes():
          lambda: Task(f, collections.OrderedDict([('b', 2), ('a', 1)])), None),
         ('default factory', lambda: Task(f, x=collections.defaultdict(int, a=1)), lambda: Task(f, x=collections.defaultdict(list, a=1)), None),
         ('list subclass', lambda: Task(f, [1, 2]), lambda: Task(f, collections.UserList([1, 2])), None),
+        ('matrix vs its transpose', lambda: Task(f, np.arange(9.).reshape(3, 3)), lambda: Task(f, np.arange(9.).reshape(3, 3).T), None),
+        ('C vs Fortran order over the same bytes', lambda: Task(f, np.arange(6).reshape(2, 3)), lambda: Task(f, np.arange(6).reshape((2, 3), order='F')), None),
+        ('axis-permuted cube', lambda: Task(f, x=np.arange(8).reshape(2, 2, 2)), lambda: Task(f, x=np.arange(8).reshape(2, 2, 2).transpose(1, 2, 0)), None),
         ('byte order', lambda: Task(f, np.zeros(2, dtype='<i4')), lambda: Task(f, np.zeros(2, dtype='>i4')), None),
         ('tasklet chain, inner operation', lambda: Task(f, Task(f, 0)[0][1]), lambda: Task(f, Task(f, 0)[1][1]), None),
         ('tasklet chain, length', lambda: Task(f, Task(f, 0)[1][1]), lambda: Task(f, Task(f, 0)[1]), None),
